@@ -38,6 +38,16 @@ def pyStrHandle : List Sexp → Option Sexp
       let lo ← optInt? lo
       pure (ofBool (Py.startswith s.toList pfx.toList lo))
   | [.atom "pystr", .atom "in", .str x, .str cs] => pure (ofBool (Py.inChars x.toList cs.toList))
+  | [.atom "pystr", .atom "scan", .str s, .str cs, .atom neg, loc, b] => do
+      let loc ← loc.int?
+      let b ← b.int?
+      match Py.scanWhile s.toList cs.toList (neg == "T") loc b with
+      | some l => pure (ofInt l)
+      | none => pure (.atom "IndexError")
+  | [.atom "pystr", .atom "min", a, b] => do
+      let a ← a.int?
+      let b ← b.int?
+      pure (ofInt (min a b))
   | [.atom "pystr", .atom "len", .str s] => pure (ofInt (Py.len s.toList))
   | _ => none
 
